@@ -5,15 +5,29 @@ The proxy's command tree is a flat table (`parent` / `redirect` are node ids, 0 
 redirect graphs with cycles are representable.  `filterNode` makes a fresh copy of every node it keeps; the copy a
 player receives is encoded as a token list (pre-order: `node id`, then — if the node redirects and the target
 survives — `redirect` followed by the target's own filtered copy, then the children in registration order, then `up`).
-Recursion is by fuel: `none` = the Go recursion does not terminate (a redirect leads back to a node that is being
-filtered: stack overflow), `some []` = filterNode returned nil (requirement not passed).
+Recursion is by fuel: `Res.diverges` = the Go recursion does not terminate (a redirect leads back to a node that is
+being filtered: stack overflow), `Res.panicked` = a requirement function panicked for this player (the panic unwinds
+out of filterNode and handleAvailableCommands: no tree is delivered), `Res.ok []` = filterNode returned nil
+(requirement not passed).
 -/
 namespace Gate.C23
+
+/-- a node's requirement, as it behaves for the player the tree is filtered for -/
+inductive Req where
+  | free                -- no requirement
+  | perm (p : Nat)      -- passes iff the player has permission p
+  | panics              -- the (plugin-supplied) requirement function panics for this player
+  deriving DecidableEq, Repr
+
+/-- outcome of `src.CanUse(ctx)` -/
+inductive ReqOut where
+  | allow | deny | panic
+  deriving DecidableEq, Repr
 
 structure PNode where
   parent : Nat
   name : String
-  req : Option Nat            -- permission required (none = no requirement)
+  req : Req
   redirect : Option Nat       -- redirect target id (0 = root)
   deriving DecidableEq, Repr
 
@@ -25,41 +39,65 @@ inductive Tok where
   | up
   deriving DecidableEq, Repr
 
-def usable (perms : List Nat) (nd : PNode) : Bool :=
+def reqOut (perms : List Nat) (nd : PNode) : ReqOut :=
   match nd.req with
-  | none => true
-  | some p => perms.contains p
+  | .free => .allow
+  | .perm p => if perms.contains p then .allow else .deny
+  | .panics => .panic
+
+/-- the requirement returned true (a panicking requirement is NOT passed) -/
+def usable (perms : List Nat) (nd : PNode) : Bool := reqOut perms nd == .allow
 
 /-- ids of the children of node `n`, in registration order -/
 def childIds (t : PTree) (n : Nat) : List Nat :=
   (t.zipIdx.filter (fun x => x.1.parent == n)).map (fun x => x.2 + 1)
 
-/-- concatenation of optional token lists; `none` (divergence) is absorbing -/
-def catOpt : List (Option (List Tok)) → Option (List Tok)
-  | [] => some []
-  | none :: _ => none
-  | some a :: r => (catOpt r).map (a ++ ·)
+/-- what a call of filterNode amounts to -/
+inductive Res where
+  | diverges                 -- the recursion never returns (stack overflow)
+  | panicked                 -- a requirement panicked; the panic unwinds out of filterNode: no tree is delivered
+  | ok (ts : List Tok)       -- returned; `[]` = nil
+  deriving DecidableEq, Repr
+
+/-- results of consecutive calls: the first call that does not return decides -/
+def catRes : List Res → Res
+  | [] => .ok []
+  | .ok a :: r =>
+    match catRes r with
+    | .ok b => .ok (a ++ b)
+    | e => e
+  | e :: _ => e
 
 /-- `filterNode(node n, player)` -/
-def filter (t : PTree) (perms : List Nat) : Nat → Nat → Option (List Tok)
-  | 0, _ => none
+def filter (t : PTree) (perms : List Nat) : Nat → Nat → Res
+  | 0, _ => .diverges
   | fuel + 1, n =>
     if n = 0 then
       -- *brigodier.RootCommandNode: fresh root, then the children
-      (catOpt ((childIds t 0).map (filter t perms fuel))).map (fun cs => Tok.node 0 :: cs ++ [Tok.up])
+      match catRes ((childIds t 0).map (filter t perms fuel)) with
+      | .ok cs => .ok (Tok.node 0 :: cs ++ [Tok.up])
+      | e => e
     else
       match t[n - 1]? with
-      | none => some []
+      | none => .ok []
       | some nd =>
-        if !usable perms nd then some []          -- !src.CanUse(...) → nil
-        else
-          let red : Option (List Tok) :=
+        match reqOut perms nd with
+        | .panic => .panicked                -- src.CanUse(...) panics
+        | .deny => .ok []                    -- !src.CanUse(...) → nil
+        | .allow =>
+          let red : Res :=
             match nd.redirect with
-            | none => some []
-            | some tgt => (filter t perms fuel tgt).map (fun r => if r.isEmpty then [] else Tok.redirect :: r)
-          match red, catOpt ((childIds t n).map (filter t perms fuel)) with
-          | some r, some cs => some (Tok.node n :: r ++ cs ++ [Tok.up])
-          | _, _ => none
+            | none => .ok []
+            | some tgt =>
+              match filter t perms fuel tgt with
+              | .ok r => .ok (if r.isEmpty then [] else Tok.redirect :: r)
+              | e => e
+          match red with
+          | .ok r =>
+            match catRes ((childIds t n).map (filter t perms fuel)) with
+            | .ok cs => .ok (Tok.node n :: r ++ cs ++ [Tok.up])
+            | e => e
+          | e => e
 
 /-- fuel that decides termination: a recursion deeper than the number of nodes + 1 repeats a node -/
 def fuelFor (t : PTree) : Nat := t.length + 2
